@@ -1,14 +1,17 @@
 package vegeta_test
 
 import (
+	"bufio"
 	"context"
 	"fmt"
+	"io"
 	"net"
 	"net/http"
 	"net/http/httptest"
 	"net/netip"
 	"regexp"
 	"runtime"
+	"sort"
 	"strings"
 	"sync"
 	"testing"
@@ -33,6 +36,44 @@ type c02Dial struct {
 	SlowMS   int
 	FailFam  string // "", "4" or "6": dials to that family fail
 	ConnectN int    // > 0: the name is also mapped (connect-to) to this many replacement names
+	// DropEvery > 0: the server keeps connections alive and, on every DropEvery-th request of a connection, reads the
+	// request and closes the connection without answering (a keep-alive connection going stale under the client)
+	DropEvery int    `json:",omitempty"`
+	Method    string `json:",omitempty"` // "" = GET
+}
+
+// c02DropServer answers HTTP/1.1 requests on kept-alive connections and drops every n-th request of a connection.
+func c02DropServer(n int) (addr string, closeFn func(), err error) {
+	ln, err := net.Listen("tcp4", "127.0.0.1:0")
+	if err != nil {
+		return "", nil, err
+	}
+	go func() {
+		for {
+			conn, err := ln.Accept()
+			if err != nil {
+				return
+			}
+			go func(c net.Conn) {
+				defer c.Close()
+				br := bufio.NewReader(c)
+				for k := 1; ; k++ {
+					req, err := http.ReadRequest(br)
+					if err != nil {
+						return
+					}
+					io.Copy(io.Discard, req.Body)
+					if k%n == 0 {
+						return // no answer
+					}
+					if _, err := c.Write([]byte("HTTP/1.1 200 OK\r\nContent-Length: 2\r\n\r\nok")); err != nil {
+						return
+					}
+				}
+			}(conn)
+		}
+	}()
+	return ln.Addr().String(), func() { ln.Close() }, nil
 }
 
 var c02LibFrameRT = regexp.MustCompile(`(?m)^\t\S*/lib/[a-z0-9]+\.go:\d+`)
@@ -83,6 +124,14 @@ func runC02Dial(c c02Dial) error {
 	}))
 	defer srv.Close()
 	real := srv.Listener.Addr().String()
+	if c.DropEvery > 0 {
+		addr, closeFn, err := c02DropServer(c.DropEvery)
+		if err != nil {
+			return nil
+		}
+		defer closeFn()
+		real = addr
+	}
 	var mu sync.Mutex
 	dials := 0
 	tr := &http.Transport{DialContext: func(ctx context.Context, network, addr string) (net.Conn, error) {
@@ -111,12 +160,31 @@ func runC02Dial(c c02Dial) error {
 		vegeta.DNSCaching(time.Duration(c.TTLms) * time.Millisecond)}
 	atk := vegeta.NewAttacker(opts...)
 	n := 0
-	for range atk.Attack(vegeta.NewStaticTargeter(vegeta.Target{Method: "GET", URL: "http://" + host + ":8080/"}), stopAfterPacer{uint64(c.Hits)}, 0, "c02dial") {
+	tgt := vegeta.Target{Method: "GET", URL: "http://" + host + ":8080/"}
+	if c.Method != "" {
+		tgt.Method, tgt.Body = c.Method, []byte("payload")
+	}
+	seqs := map[uint64]int{}
+	for r := range atk.Attack(vegeta.NewStaticTargeter(tgt), stopAfterPacer{uint64(c.Hits)}, 0, "c02dial") {
 		n++
+		seqs[r.Seq]++
 	}
 	what := fmt.Sprintf("attack of %d hits by %d workers on a name resolving to %v (dns-ttl %dms, IPv%s dials %dms slower, IPv%s dials failing)", c.Hits, c.Workers, c.Addrs, c.TTLms, c.SlowFam, c.SlowMS, c.FailFam)
+	if c.DropEvery > 0 {
+		what += fmt.Sprintf(", %s requests to a server that drops every %d. request of a kept-alive connection", tgt.Method, c.DropEvery)
+	}
 	if n != c.Hits {
 		return fmt.Errorf("%s: %d results", what, n)
+	}
+	for s := uint64(0); s < uint64(c.Hits); s++ {
+		if seqs[s] != 1 {
+			var all []uint64
+			for k := range seqs {
+				all = append(all, k)
+			}
+			sort.Slice(all, func(i, j int) bool { return all[i] < all[j] })
+			return fmt.Errorf("%s: sequence number %d was delivered %d times; delivered %v, want exactly 0..%d", what, s, seqs[s], all, c.Hits-1)
+		}
 	}
 	// the channel is closed: every goroutine of the attack must be gone. Parked goroutines inside
 	// library code that are still there after a second, and again 300 ms later, will never leave.
@@ -160,6 +228,11 @@ func TestC02DialPath(t *testing.T) {
 			c.SlowMS = rapid.SampledFrom([]int{1, 5, 20}).Draw(t, "slowms")
 		}
 		c.FailFam = rapid.SampledFrom([]string{"", "", "4", "6"}).Draw(t, "failfam")
+		if rapid.IntRange(0, 2).Draw(t, "drops") == 0 {
+			c.DropEvery = rapid.SampledFrom([]int{2, 2, 3, 5}).Draw(t, "dropevery")
+			c.Method = rapid.SampledFrom([]string{"POST", "PUT", "DELETE", "PATCH", "GET"}).Draw(t, "method")
+			c.FailFam, c.Hits = "", rapid.IntRange(4, 30).Draw(t, "drophits")
+		}
 		dual := len(c.Addrs) >= 2
 		vh.Case("C02.dialpath", fmt.Sprintf("%+v", c), dual, fmt.Sprintf("both-families:%v", dual))
 		vh.Sample("C02.dialpath", dual, c)
